@@ -53,3 +53,33 @@ package verifspec
 //@   loop 1 hint head: unfold escAll(s[$i1:])
 //@   loop 1 hint exit: unfold escAll(s[$i1:])
 //@   loop 1 decreases len(s) - $i1
+
+// rwseq(s): the result of whitespace removal on the byte sequence s (abstract here; removeWhitespace itself is listed as
+// an assumed contract until its lexer-level contract is discharged).
+//@ pure rwseq(s seq) seq
+//@ extern compiler.removeWhitespace
+//@   param b minify
+//@   assigns nothing
+//@   ensures minify ==> seq(result) == rwseq(seq(b))
+//@   ensures !minify ==> seq(result) == seq(b)
+
+// Decl.minify: every one of the nine code sections goes through whitespace removal of *its own* content; nothing else changes.
+//@ func compiler.Decl.minify
+//@ property C16
+//@   ensures seq(result.ImportCode) == rwseq(seq(old(d.ImportCode))) && seq(result.TypeDeclCode) == rwseq(seq(old(d.TypeDeclCode)))
+//@   ensures seq(result.ExportTypeCode) == rwseq(seq(old(d.ExportTypeCode))) && seq(result.AnonTypeDeclCode) == rwseq(seq(old(d.AnonTypeDeclCode)))
+//@   ensures seq(result.FuncDeclCode) == rwseq(seq(old(d.FuncDeclCode))) && seq(result.ExportFuncCode) == rwseq(seq(old(d.ExportFuncCode)))
+//@   ensures seq(result.MethodListCode) == rwseq(seq(old(d.MethodListCode))) && seq(result.TypeInitCode) == rwseq(seq(old(d.TypeInitCode)))
+//@   ensures seq(result.InitCode) == rwseq(seq(old(d.InitCode)))
+//@   ensures result.FullName == old(d.FullName) && result.RefExpr == old(d.RefExpr) && result.NamedRecvType == old(d.NamedRecvType) && result.Blocking == old(d.Blocking)
+//@   ensures len(result.Vars) == len(old(d.Vars)) && samearr(result.Vars, old(d.Vars))
+
+// newRootCtx: every reserved JavaScript word is marked as taken in the root context, so that no generated or shortened
+// identifier can ever equal one (child contexts copy allVars, see nestedFunctionContext).
+//@ func compiler.newRootCtx
+//@ property C16
+//@   requires srcs != nil && srcs.TypeInfo != nil
+//@   ensures result != nil
+//@   ensures all(k, has(global("compiler.reservedKeywords"), k) ==> has(result.allVars, k) && result.allVars[k] >= 1)
+//@   loop 1 invariant funcCtx != nil && !isnil(funcCtx.allVars)
+//@   loop 1 invariant all(k, $visited1[k] ==> has(funcCtx.allVars, k) && funcCtx.allVars[k] == 1)
